@@ -529,7 +529,24 @@ func (p *pkgInfo) evalBinary(x *ast.BinaryExpr, en *env) (any, error) {
 	return nil, bad("binary op %v", x.Op)
 }
 
+// vMember is the value of bytes.IndexByte(table, x) for a constant table: only its sign is ever used
+// (`>= 0`, `!= -1`, `< 0`, `== -1`), i.e. whether x is one of the table's bytes
+type vMember struct{ in *B }
+
 func (p *pkgInfo) evalCompare(op token.Token, l, r any) (any, error) {
+	if m, ok := l.(vMember); ok {
+		k, ok := r.(vInt)
+		if !ok {
+			return nil, bad("IndexByte compared with %T", r)
+		}
+		switch {
+		case (op == token.GEQ && k == 0) || (op == token.GTR && k == -1) || (op == token.NEQ && k == -1):
+			return m.in, nil
+		case (op == token.LSS && k == 0) || (op == token.LEQ && k == -1) || (op == token.EQL && k == -1):
+			return bNot(m.in), nil
+		}
+		return nil, bad("IndexByte compared with %d by %v", int64(k), op)
+	}
 	// len(raw) against a constant
 	if _, ok := l.(vLen); ok {
 		k, ok := r.(vInt)
@@ -669,6 +686,23 @@ func (p *pkgInfo) evalCall(x *ast.CallExpr, en *env) (any, error) {
 			return &B{op: "equalAll", sig: sig}, nil
 		}
 		return nil, bad("Equal on open slice")
+	case "bytes.IndexByte":
+		// membership of one input byte in a constant table: the disjunction of the equalities
+		tbl, ok := args[0].(vBytes)
+		x, ok2 := asI(args[1])
+		if !ok || !ok2 || len(tbl) == 0 {
+			return nil, bad("IndexByte(%T,%T)", args[0], args[1])
+		}
+		var acc *B
+		for _, t := range tbl {
+			eq := &B{op: "cmp", cmp: "eq", ia: x, ib: &I{op: "lit", n: int64(t)}}
+			if acc == nil {
+				acc = eq
+			} else {
+				acc = &B{op: "or", a: acc, b: eq}
+			}
+		}
+		return vMember{acc}, nil
 	case "bytes.Contains":
 		s, ok := args[0].(vSlice)
 		sig, ok2 := args[1].(vBytes)
